@@ -17,9 +17,13 @@ import (
 	"sort"
 	"strings"
 	"sync"
+	"sync/atomic"
 	"time"
 
 	"github.com/anishathalye/porcupine"
+	"github.com/massnetorg/mass-core/pocec"
+	"massnet.org/mass/poc/wallet/db"
+	"massnet.org/mass/poc/wallet/keystore"
 	"verif/harness/internal/vh"
 	"verif/harness/internal/wl"
 )
@@ -64,6 +68,21 @@ type HistRec struct {
 	Ops      []OpRec  `json:"ops"`
 	EndNotes []string `json:"end_notes"` // violations found at the quiescent end (H4, reopen)
 	EndKinds []string `json:"end_kinds"`
+	Pauses   int64    `json:"store_pauses,omitempty"` // pauses the store inserted after commits (wl.DelayDB)
+	Stress   *Stress  `json:"stress,omitempty"`
+}
+
+// Stress is the record of an observer-stress history: writers issue keys one call after the other while readers
+// poll counts, listings and lookups as fast as they can. Every answer is judged against the interval
+// [acknowledged before the call, requested by the time it returned] - what any linearizable wallet must satisfy.
+type Stress struct {
+	Writers    []string `json:"writers"`
+	Issued     [2]int64 `json:"issued"`
+	Reads      int64    `json:"reads"`
+	ReadsMid   int64    `json:"reads_while_a_write_was_in_flight"`
+	Distinct   int      `json:"distinct_answers"`
+	Kinds      []string `json:"kinds,omitempty"`
+	Violations []string `json:"violations,omitempty"`
 }
 
 // State is the sequential model's state (comparable, so porcupine can memoise it).
@@ -189,8 +208,18 @@ func oneHistory(rng *vh.Rng, idx int, dir string) HistRec {
 	os.MkdirAll(dir, 0o755)
 	defer os.RemoveAll(dir)
 	rec := HistRec{Idx: idx}
+	if idx%10 == 9 {
+		return stressHistory(rng, idx, dir)
+	}
 	pub, priv := wl.FreshPass(rng), wl.FreshPass(rng)
-	wa, err := wl.Create(filepath.Join(dir, "keystore"), pub, nil)
+	// two in three histories run over a store that pauses after a seeded share of its commits (see wl.DelayDB)
+	var wrap wl.Wrap
+	var ddb *wl.DelayDB
+	if idx%3 != 0 {
+		dseed := rng.Uint64()
+		wrap = func(d db.DB) db.DB { ddb = wl.NewDelayDB(d, dseed, 35, 4*time.Millisecond); return ddb }
+	}
+	wa, err := wl.Create(filepath.Join(dir, "keystore"), pub, wrap)
 	if err != nil {
 		rec.EndNotes = append(rec.EndNotes, "setup failed: "+err.Error())
 		return rec
@@ -242,7 +271,12 @@ func oneHistory(rng *vh.Rng, idx int, dir string) HistRec {
 		for j := 0; j < per; j++ {
 			k := rng.Intn(nks)
 			in := In{K: k}
-			switch rng.Weighted(20, 12, 14, 8, 4, 2, 5, 5, 5, 5, 4, 5, 7, 5) {
+			ws := []int{20, 12, 14, 8, 4, 2, 5, 5, 5, 5, 4, 5, 7, 5}
+			if idx%5 == 2 {
+				// remark-heavy: remark changes racing with each other, with remark reads and with exports
+				ws = []int{4, 3, 2, 1, 1, 1, 2, 2, 14, 30, 12, 2, 3, 1}
+			}
+			switch rng.Weighted(ws...) {
 			case 0:
 				in.Op = "genpub"
 			case 1:
@@ -298,6 +332,9 @@ func oneHistory(rng *vh.Rng, idx int, dir string) HistRec {
 	}
 	close(start)
 	wg.Wait()
+	if ddb != nil {
+		rec.Pauses = ddb.Pauses
+	}
 	// quiescent end state
 	wa.M.Lock()
 	_, views := wa.M.VerifInspect()
@@ -320,6 +357,210 @@ func oneHistory(rng *vh.Rng, idx int, dir string) HistRec {
 		rec.EndNotes = append(rec.EndNotes, d)
 	}
 	wb.Close()
+	return rec
+}
+
+// stressHistory: see Stress.
+func stressHistory(rng *vh.Rng, idx int, dir string) HistRec {
+	rec := HistRec{Idx: idx, Stress: &Stress{}}
+	st := rec.Stress
+	pub, priv := wl.FreshPass(rng), wl.FreshPass(rng)
+	wa, err := wl.Create(filepath.Join(dir, "keystore"), pub, nil)
+	if err != nil {
+		rec.EndNotes = append(rec.EndNotes, "setup failed: "+err.Error())
+		return rec
+	}
+	defer wa.Close()
+	seed := rng.Bytes(32)
+	id, err := wa.M.NewKeystore(priv, seed, "stress", wl.Net(), wl.FastScrypt)
+	if err != nil {
+		rec.EndNotes = append(rec.EndNotes, "setup failed: "+err.Error())
+		return rec
+	}
+	rec.Seeds, rec.IDs = []string{hex.EncodeToString(seed)}, []string{id}
+	d, _ := wl.Derive(seed)
+	const maxKeys = 96
+	known := map[string]keyRef{}
+	for br := 0; br < 2; br++ {
+		for i := 0; i < maxKeys+8; i++ {
+			known[d.PubHex(uint32(br), uint32(i))] = keyRef{0, br, i}
+		}
+	}
+	if rng.Bool() {
+		wa.M.Unlock(priv)
+	}
+	var am *keystore.AddrManager
+	for _, a := range wa.M.GetManagedAddrManager() {
+		if a.Name() == id {
+			am = a
+		}
+	}
+	var started, done [2]int64
+	var vmu sync.Mutex
+	answers := map[string]bool{}
+	viol := func(kind, msg string) {
+		vmu.Lock()
+		defer vmu.Unlock()
+		for _, k := range st.Kinds {
+			if k == kind {
+				if len(st.Violations) < 12 {
+					st.Violations = append(st.Violations, msg)
+				}
+				return
+			}
+		}
+		st.Kinds = append(st.Kinds, kind)
+		st.Violations = append(st.Violations, msg)
+	}
+	// writers: which branches are being issued on. An idle branch makes every answer about it exact.
+	mode := rng.PickS("ext-genpub", "ext-next", "int-next", "ext+int", "ext+int")
+	var wwg, rwg sync.WaitGroup
+	stop := make(chan struct{})
+	writer := func(br int, genpub bool, total int, r *vh.Rng) {
+		defer wwg.Done()
+		for n := 0; n < total; {
+			k := 1
+			if !genpub {
+				k = r.Range(1, 3)
+			}
+			atomic.AddInt64(&started[br], int64(k))
+			var err error
+			if genpub {
+				_, _, err = wa.M.GenerateNewPublicKey()
+			} else {
+				_, err = wa.M.NextAddresses(id, br == 1, uint32(k))
+			}
+			if err != nil {
+				viol("issuance-failed-under-observers", fmt.Sprintf("branch %d: %v", br, err))
+				return
+			}
+			atomic.AddInt64(&done[br], int64(k))
+			n += k
+		}
+	}
+	total := rng.Range(40, maxKeys-4)
+	switch mode {
+	case "ext-genpub":
+		st.Writers = []string{"GenerateNewPublicKey"}
+		wwg.Add(1)
+		go writer(0, true, total, rng.Derive("w", 0))
+	case "ext-next":
+		st.Writers = []string{"NextAddresses(external)"}
+		wwg.Add(1)
+		go writer(0, false, total, rng.Derive("w", 0))
+	case "int-next":
+		st.Writers = []string{"NextAddresses(internal)"}
+		wwg.Add(1)
+		go writer(1, false, total, rng.Derive("w", 1))
+	default:
+		st.Writers = []string{"GenerateNewPublicKey", "NextAddresses(internal)"}
+		wwg.Add(2)
+		go writer(0, true, total/2, rng.Derive("w", 0))
+		go writer(1, false, total/2, rng.Derive("w", 1))
+	}
+	reader := func(ri int, r *vh.Rng) {
+		defer rwg.Done()
+		last := [2]int{}
+		for i := 0; ; i++ {
+			select {
+			case <-stop:
+				return
+			default:
+			}
+			lo := [2]int64{atomic.LoadInt64(&done[0]), atomic.LoadInt64(&done[1])}
+			what := ri % 3 // reader 0 polls counts only (cheap: keeps the keystore lock busy), reader 1 listings, reader 2 lookups
+			if ri >= 3 {
+				what = i % 3
+			}
+			var got [2]int
+			var br, q int
+			var found bool
+			switch what {
+			case 0:
+				got[0], got[1] = am.CountAddresses()
+			case 1:
+				seen := [2]map[int]bool{{}, {}}
+				for _, ma := range am.ManagedAddresses() {
+					kr, ok := known[hex.EncodeToString(ma.PubKey().SerializeCompressed())]
+					if !ok {
+						viol("listing-contains-unknown-key", "a listed key is not a key of this keystore")
+						continue
+					}
+					seen[kr.br][kr.idx] = true
+				}
+				for b := 0; b < 2; b++ {
+					got[b] = len(seen[b])
+					for j := 0; j < len(seen[b]); j++ {
+						if !seen[b][j] {
+							viol("listing-not-a-prefix", fmt.Sprintf("branch %d lists %d keys but not index %d", b, len(seen[b]), j))
+							break
+						}
+					}
+				}
+			case 2:
+				br = 0
+				q = int(lo[0]) - 2 + r.Intn(6)
+				if q < 0 {
+					q = 0
+				}
+				pk, _ := hex.DecodeString(d.PubHex(uint32(br), uint32(q)))
+				pub, _ := pocec.ParsePubKey(pk, pocec.S256())
+				var ord uint32
+				ord, found = wa.M.GetPublicKeyOrdinal(pub)
+				if found && int(ord) != q {
+					viol("ordinal-lookup-wrong-under-observers", fmt.Sprintf("key %d reported with ordinal %d", q, ord))
+				}
+			}
+			hi := [2]int64{atomic.LoadInt64(&started[0]), atomic.LoadInt64(&started[1])}
+			atomic.AddInt64(&st.Reads, 1)
+			if hi != lo {
+				atomic.AddInt64(&st.ReadsMid, 1)
+			}
+			if what == 2 {
+				if int64(q) < lo[0] && !found {
+					viol("acknowledged-key-not-found", fmt.Sprintf("reader %d: plot key %d was acknowledged before the lookup started (acknowledged=%d) but is not found", ri, q, lo[0]))
+				}
+				if int64(q) >= hi[0] && found {
+					viol("unrequested-key-found", fmt.Sprintf("reader %d: plot key %d found although only %d were requested when the lookup returned", ri, q, hi[0]))
+				}
+				continue
+			}
+			name := []string{"count", "list"}[what]
+			for b := 0; b < 2; b++ {
+				if int64(got[b]) < lo[b] || int64(got[b]) > hi[b] {
+					viol("observer-saw-impossible-"+name, fmt.Sprintf("reader %d: %s says branch %d has %d keys; acknowledged before the call: %d, requested by its return: %d (answer ext=%d int=%d)", ri, name, b, got[b], lo[b], hi[b], got[0], got[1]))
+				}
+			}
+			if what == 0 {
+				for b := 0; b < 2; b++ {
+					if got[b] < last[b] {
+						viol("observer-count-went-backwards", fmt.Sprintf("reader %d: branch %d count %d after %d", ri, b, got[b], last[b]))
+					}
+					last[b] = got[b]
+				}
+			}
+			vmu.Lock()
+			if len(answers) < 4096 {
+				answers[fmt.Sprintf("%s:%d:%d", name, got[0], got[1])] = true
+			}
+			vmu.Unlock()
+		}
+	}
+	R := rng.Range(3, 5)
+	rwg.Add(R)
+	for i := 0; i < R; i++ {
+		go reader(i, rng.Derive("r", i))
+	}
+	wwg.Wait()
+	close(stop)
+	rwg.Wait()
+	st.Issued = [2]int64{done[0], done[1]}
+	st.Distinct = len(answers)
+	// quiescent: exact
+	e, in := am.CountAddresses()
+	if int64(e) != done[0] || int64(in) != done[1] {
+		viol("final-count-differs-from-acknowledged", fmt.Sprintf("count (%d,%d), acknowledged (%d,%d)", e, in, done[0], done[1]))
+	}
 	return rec
 }
 
@@ -541,14 +782,32 @@ func main() {
 	sort.Strings(plist)
 	run.Set("distinct_racing_pairs_in_repository", plist)
 	run.Set("distinct_interleavings", len(interleavings))
-	run.Finish("case = one concurrent history: 2-4 goroutines x 4-16 operations (plot-key issuance, address generation, signing, ordinal/address lookups, listing, counts, remark read/change, export, lock, unlock, IsLocked) on 1-2 keystores of a real wallet, run under the race detector in child processes; each history is checked with porcupine against a sequential wallet model (checker timeout = dropped case), the quiescent end state is inspected (H4) and reopened; non-trivial = >= 2 operations overlapped in real time and >= 1 state-changing operation; distinct by hash of the call/return order", run.N(150, 5000))
+	run.Finish("case = one concurrent history: 2-4 goroutines x 4-16 operations (plot-key issuance, address generation, signing, ordinal/address lookups, listing, counts, remark read/change, export, lock, unlock, IsLocked) on 1-2 keystores of a real wallet, run under the race detector in child processes; each history is checked with porcupine against a sequential wallet model (checker timeout = dropped case), the quiescent end state is inspected (H4) and reopened; two in three histories run over a store that pauses after 35% of its commits (up to 4 ms: widens the window between store update and in-memory publication); every tenth case is an observer-stress history instead (1-2 writers issue 40-92 keys call after call, 3-5 readers poll CountAddresses / ManagedAddresses / GetPublicKeyOrdinal in a tight loop; every answer must lie between what was acknowledged before the call and what was requested by its return, counts never go backwards, listings are prefixes); non-trivial = >= 2 operations overlapped in real time and >= 1 state-changing operation (stress: >= 1 read while a write was in flight); distinct by hash of the call/return order", run.N(150, 5000))
 }
 
 func judge(run *vh.Run, h *HistRec, interleavings map[uint64]bool, imu *sync.Mutex) {
+	if h.Stress != nil {
+		st := h.Stress
+		if st.Reads == 0 || st.Issued[0]+st.Issued[1] == 0 {
+			run.Drop("observer-stress history without reads or writes")
+			return
+		}
+		run.Count("stress_histories", 1)
+		run.Count("stress_reads", st.Reads)
+		run.Count("stress_reads_while_a_write_was_in_flight", st.ReadsMid)
+		run.Count("stress_keys_issued", st.Issued[0]+st.Issued[1])
+		run.Count("stress_distinct_answers", int64(st.Distinct))
+		for _, k := range st.Kinds {
+			run.Violate(h.Idx, k, map[string]string{"writers": strings.Join(st.Writers, "+")}, map[string]interface{}{"history": h})
+		}
+		run.Case(vh.HashS(fmt.Sprintf("stress-%d-%d-%d-%d", h.Idx, st.Reads, st.ReadsMid, st.Distinct)), st.ReadsMid > 0)
+		return
+	}
 	if len(h.Ops) == 0 {
 		run.Drop("history without operations (setup failed)")
 		return
 	}
+	run.Count("store_pauses_after_commit", h.Pauses)
 	ops := make([]porcupine.Operation, len(h.Ops))
 	for i, o := range h.Ops {
 		ops[i] = porcupine.Operation{ClientId: o.C, Input: o.In, Call: o.Call, Output: o.Out, Return: o.Ret}
